@@ -1,7 +1,185 @@
-//! (stub) driver module - see tools/HOWTO.md
-use crate::util::Args;
+//! C14 driver: (a) sixel payload decoder - rectangularity; (b) the background-decode queue - arrival order, shadowing,
+//! non-blocking polls - under completion orders chosen by the harness through the `icy_engine_verif` gate hook.
+use crate::util::{guard, panic_site, rng, Args, Out};
+use icy_engine::{ansi, verif, Buffer, BufferParser, Caret, Sixel};
+use rand::Rng;
+use serde_json::{json, Value};
+use std::sync::atomic::{AtomicBool, Ordering};
+use std::sync::Arc;
+use std::time::{Duration, Instant};
 
-pub fn c14(_a: &Args) {
-    eprintln!("c14: driver not built yet");
-    std::process::exit(2);
+fn decode_event(payload: &[u8], src: &str) -> Value {
+    let s: String = payload.iter().map(|b| *b as char).collect();
+    let r = guard(|| Sixel::parse_from(icy_engine::Position::default(), 1, 1, [0, 0, 0, 0], &s));
+    match r {
+        Ok(Ok(sx)) => json!({"ev":"sx","src":src,"payload":payload,"r":"ok","w":sx.get_width(),"h":sx.get_height(),"len":sx.picture_data.len()}),
+        Ok(Err(_)) => json!({"ev":"sx","src":src,"payload":payload,"r":"err","w":0,"h":0,"len":0}),
+        Err(p) => json!({"ev":"sx","src":src,"payload":payload,"r":"panic","w":0,"h":0,"len":0,"site":panic_site(&p)}),
+    }
+}
+
+fn rects(cfg: u64) -> Vec<[i32; 4]> {
+    match cfg {
+        1 => vec![[0, 0, 1, 1], [3, 0, 4, 1], [6, 0, 7, 1], [9, 0, 10, 1]],
+        2 => vec![[1, 1, 2, 2], [0, 0, 4, 4], [1, 1, 2, 2], [0, 0, 5, 5]],
+        3 => vec![[0, 0, 5, 5], [1, 1, 2, 2], [0, 0, 5, 5], [3, 3, 4, 4]],
+        _ => vec![[0, 0, 2, 2], [1, 1, 3, 3], [0, 0, 3, 3], [2, 2, 2, 2]],
+    }
+}
+
+fn wait_until(limit: Duration, mut f: impl FnMut() -> bool) -> bool {
+    let t0 = Instant::now();
+    while !f() {
+        if t0.elapsed() > limit {
+            return false;
+        }
+        std::thread::sleep(Duration::from_micros(50));
+    }
+    true
+}
+
+/// What is on the screen: the layer's sixels as tickets.  Each ticket is submitted with its own number as the first raster
+/// attribute (pixel aspect numerator), which the decoder stores as `vertical_scale` and which has no influence on the
+/// picture's rectangle.
+fn shown(buf: &Buffer, _rs: &[[i32; 4]], _submitted: &[usize]) -> Value {
+    let mut out = vec![];
+    for s in &buf.layers[0].sixels {
+        let t = s.vertical_scale.max(0);
+        out.push(json!([t, s.position.x, s.position.y, s.get_width(), s.get_height()]));
+    }
+    Value::Array(out)
+}
+
+fn run_schedule(sched: &Value, out: &mut Out, id: usize) {
+    let cfg = sched["rect"].as_u64().unwrap_or(1);
+    let rs = rects(cfg);
+    let hist = sched["hist"].as_array().cloned().unwrap_or_default();
+    verif::sixel_gate_enable(true);
+    let mut buf = Buffer::create((80, 25));
+    buf.is_terminal_buffer = true;
+    let mut caret = Caret::default();
+    let mut parser = ansi::Parser::default();
+    out.ev(&json!({"ev":"reset","case":id,"rect":cfg,"k":sched["k"],"rects":rs.iter().map(|r| r.to_vec()).collect::<Vec<_>>()}));
+    let mut submitted: Vec<usize> = vec![];
+    let mut popped = 0usize; // handles no longer in the queue (delivered or cleared)
+    for act in &hist {
+        let name = act[0].as_str().unwrap_or("");
+        let arg = act[1].as_u64().unwrap_or(0) as usize;
+        let mut ev = json!({"ev":name,"i":arg});
+        match name {
+            "submit" => {
+                let r = rs[arg - 1];
+                let s = format!("\x1b[{};{}H\x1bP0;0;0q\"{};1;{};{}#0?\x1b\\", r[1] + 1, r[0] + 1, arg, (r[2] - r[0] + 1) * 8, (r[3] - r[1] + 1) * 16);
+                for ch in s.chars() {
+                    let _ = parser.print_char(&mut buf, 0, &mut caret, ch);
+                }
+                submitted.push(arg);
+                let n = submitted.len();
+                let ok = wait_until(Duration::from_secs(5), || verif::sixel_gate_arrived() >= n);
+                ev["arrived"] = json!(ok as u8);
+            }
+            "finish" => {
+                verif::sixel_gate_release(arg - 1);
+                // the handle of ticket `arg` sits at index (arg-1-popped) while it is still queued
+                let idx = (arg - 1).checked_sub(popped);
+                let ok = match idx {
+                    Some(i) if i < buf.sixel_threads.len() => wait_until(Duration::from_secs(5), || buf.sixel_threads[i].is_finished()),
+                    _ => { std::thread::sleep(Duration::from_millis(2)); true } // abandoned decode (queue was cleared)
+                };
+                ev["done"] = json!(ok as u8);
+            }
+            "poll" => {
+                // watchdog: a poll that waits for a parked decode would never return - release everything after 1.5 s
+                let fin = Arc::new(AtomicBool::new(false));
+                let blocked = Arc::new(AtomicBool::new(false));
+                let (f2, b2) = (fin.clone(), blocked.clone());
+                let wd = std::thread::spawn(move || {
+                    let t0 = Instant::now();
+                    while !f2.load(Ordering::SeqCst) {
+                        if t0.elapsed() > Duration::from_millis(1500) {
+                            b2.store(true, Ordering::SeqCst);
+                            verif::sixel_gate_release_all();
+                            return;
+                        }
+                        std::thread::sleep(Duration::from_micros(200));
+                    }
+                });
+                let before = buf.sixel_threads.len();
+                let t0 = Instant::now();
+                let r = guard(|| buf.update_sixel_threads());
+                let us = t0.elapsed().as_micros() as u64;
+                fin.store(true, Ordering::SeqCst);
+                let _ = wd.join();
+                popped += before - buf.sixel_threads.len();
+                ev["ret"] = json!(match &r { Ok(Ok(true)) => "true", Ok(Ok(false)) => "false", Ok(Err(_)) => "err", Err(_) => "panic" });
+                if let Err(p) = &r { ev["site"] = json!(panic_site(p)); }
+                ev["blocked"] = json!(blocked.load(Ordering::SeqCst) as u8);
+                ev["us"] = json!(us);
+            }
+            "clear" => {
+                let before = buf.sixel_threads.len();
+                let _ = parser.print_char(&mut buf, 0, &mut caret, '\x0c');
+                popped += before - buf.sixel_threads.len();
+            }
+            _ => {}
+        }
+        ev["pending"] = json!(buf.sixel_threads.len());
+        ev["shown"] = shown(&buf, &rs, &submitted);
+        let stop = ev["blocked"].as_u64() == Some(1);
+        out.ev(&ev);
+        if stop {
+            break;
+        }
+    }
+    verif::sixel_gate_release_all();
+    // let abandoned decodes run out
+    for h in buf.sixel_threads.drain(..) {
+        let _ = h.join();
+    }
+    verif::sixel_gate_enable(false);
+}
+
+pub fn c14(a: &Args) {
+    let seed = a.u64("seed", 0);
+    let thorough = a.str("tier", "quick") == "thorough";
+    // ---- (a) decoder
+    let mut out = Out::create(&a.str("out-dec", "work/C14/dec.ndjson"));
+    if let Ok(text) = std::fs::read_to_string(a.str("gen-dec", "gen/sixel_payloads.ndjson")) {
+        for line in text.lines() {
+            if let Ok(v) = serde_json::from_str::<Value>(line) {
+                let p: Vec<u8> = v["payload"].as_array().map(|a| a.iter().map(|x| x.as_u64().unwrap_or(0) as u8).collect()).unwrap_or_default();
+                out.ev(&decode_event(&p, "tlc"));
+            }
+        }
+    }
+    let n_rand = if thorough { 20000 } else { 2500 };
+    let alpha: &[&[u8]] = &[b"?", b"~", b"@", b"A", b"_", b"N", b"-", b"$", b"!2", b"!7~", b"!500?", b"#1", b"#2;2;10;20;30", b"#3;1;120;50;50", b"\"1;1;3;7", b"\"1;1;1;1", b"\"1;1;40;13", b"\"2;1", b"\"1;1;9", b"!", b"#", b"0", b";", b"\x80"];
+    for k in 0..n_rand {
+        let mut r = rng(seed, 40_000 + k);
+        let mut p = vec![];
+        let n = r.gen_range(1..30);
+        for _ in 0..n {
+            if r.gen_bool(0.85) { p.extend_from_slice(alpha[r.gen_range(0..alpha.len())]); } else { p.push(r.gen_range(0x20..0x80)); }
+        }
+        out.ev(&decode_event(&p, "rnd"));
+    }
+    out.flush();
+    eprintln!("c14: {} decoder events", out.n);
+    // ---- (b) queue schedules exported by TLC
+    let mut out = Out::create(&a.str("out-queue", "work/C14/queue.ndjson"));
+    let mut id = 0;
+    let limit = a.usize("max-schedules", usize::MAX);
+    for path in a.str("gen-queue", "gen/sixel_sched_1.ndjson").split(',') {
+        if let Ok(text) = std::fs::read_to_string(path) {
+            for line in text.lines() {
+                if id >= limit { break; }
+                if let Ok(v) = serde_json::from_str::<Value>(line) {
+                    run_schedule(&v, &mut out, id);
+                    id += 1;
+                }
+            }
+        }
+    }
+    out.flush();
+    eprintln!("c14: {} schedules, {} queue events", id, out.n);
 }
